@@ -5,7 +5,7 @@ Pure `ast`.  Nothing is imported from the analysed repository.
 from __future__ import annotations
 import ast
 from .canon import canonicalise
-from .inline import inline_new_helpers, package_helpers
+from .inline import inline_new_helpers, package_helpers, module_bindings
 import hashlib
 import os
 from dataclasses import dataclass, field
@@ -263,10 +263,11 @@ class Program:
         pkg_funcs, pkg_meths = package_helpers([(short(n_), t_) for n_, _p, _s, t_, _k in parsed], ambiguous)
         # the helper bodies are copied from the trees as parsed: inline in dependency-free order by working on pristine copies of the helper bodies
         import copy as _copy
+        pkg_bindings = {short(n_): module_bindings(t_, short(n_), k_) for n_, _p, _s, t_, k_ in parsed}
         imported = {a.name for _n, _p, _s, t_, _k in parsed for st_ in ast.walk(t_) if isinstance(st_, ast.ImportFrom) for a in st_.names}
         pkg_funcs = {k: (_copy.deepcopy(f), _copy.deepcopy(b)) for k, (f, b) in pkg_funcs.items()}
         for name, path, src, tree, is_pkg in parsed:
-            tree, inl = inline_new_helpers(tree, short(name), ambiguous, pkg_funcs, pkg_meths, is_pkg, imported)
+            tree, inl = inline_new_helpers(tree, short(name), ambiguous, pkg_funcs, pkg_meths, is_pkg, imported, pkg_bindings)
             if inl:
                 self.inlined[name] = inl
             tree = canonicalise(tree)
